@@ -512,6 +512,7 @@ fn main() {
             "lowlevel" => lowlevel::run(&kv),
             "matrix" => mat::run_matrix(&kv),
             "lu" => mat::run_lu(&kv),
+            "luc" => mat::run_luc(&kv),
             _ => "unknown-kind\n".to_string(),
         };
         w.write_all(body.as_bytes()).unwrap();
